@@ -59,7 +59,10 @@ def main() -> None:
     job = json.load(sys.stdin)
     sys.setrecursionlimit(10000)
     try:
-        res = run(job)
+        if "batch" in job:
+            res = {"batch": [run({**job, "args": a}) for a in job["batch"]]}
+        else:
+            res = run(job)
     except BaseException as e:  # noqa: BLE001
         res = {"error": f"{type(e).__name__}: {e}\n{traceback.format_exc()[-3000:]}"}
     sys.stdout.write("\n@@RESULT@@" + json.dumps(res) + "\n")
